@@ -263,8 +263,9 @@ class Proc:
                 raise Refuse('%s: for over non-list' % self.fn.name)
             carried = sorted({n.targets[0].id for n in ast.walk(st) if isinstance(n, ast.Assign)
                               and isinstance(n.targets[0], ast.Name)})
-            for c in carried:
-                if c not in env: raise Refuse('%s: loop variable %s not initialised' % (self.fn.name, c))
+            # names first assigned inside the body are per-iteration locals (plain lets); only names that exist
+            # before the loop are carried from one iteration to the next
+            carried = [c for c in carried if c in env]
             self.loopn += 1
             loop = 'loop%d' % self.loopn
             lxs = self.fresh('xs'); ltl = self.fresh('tl'); lx = self.fresh(st.target.id)
